@@ -90,6 +90,9 @@ type lpFaultBox struct {
 	mu    sync.Mutex
 	f     lpFaults
 	fired int // how often the generic fault site was hit since the last set
+	// siteMode 'b': the call parks (after telling `blocked`) until `release` is closed
+	blocked chan struct{}
+	release chan struct{}
 }
 
 // hit is called by every wrapped storage-interface method of the leaf path.
@@ -106,6 +109,19 @@ func (b *lpFaultBox) hit(site string, shard models.ShardID) error {
 	}
 	if f.siteMode == 'p' {
 		panic(fmt.Sprintf("injected panic in %s (shard %d)", site, shard))
+	}
+	if f.siteMode == 'b' {
+		b.mu.Lock()
+		blocked, release := b.blocked, b.release
+		b.mu.Unlock()
+		if blocked != nil && release != nil {
+			blocked <- struct{}{}
+			select {
+			case <-release:
+			case <-time.After(10 * time.Second):
+			}
+		}
+		return nil
 	}
 	return fmt.Errorf("%s (shard %d): %w", site, shard, errInjectedIO)
 }
@@ -479,6 +495,33 @@ func lpOpen() (w *lpWorld, err error) {
 	return w, nil
 }
 
+// openDeadlineStream serves one request on a stream of its own whose context the harness can cancel: the
+// task handler derives the request's context (flow.NewTaskContextWithTimeout) from the stream's, so the
+// cancellation is the request's deadline passing — without any timer.
+func (w *lpWorld) openDeadlineStream() (*lpStream, context.CancelFunc, func()) {
+	fct := rpc.NewTaskServerFactory()
+	leafNode := &models.StatelessNode{HostIP: "127.0.0.1", GRPCPort: 7002}
+	proc := query.NewLeafTaskProcessor(leafNode, &lpEngine{Engine: w.eng, f: w.faults}, fct)
+	h := query.NewTaskHandler(config.Query{Timeout: ltoml.Duration(20 * time.Second)}, fct, proc, w.taskPool)
+	base := metadata.NewIncomingContext(context.Background(), metadata.Pairs(constants.RPCMetaKeyLogicNode, lpClient))
+	ctx, cancel := context.WithCancel(base)
+	st := &lpStream{ctx: ctx, reqs: make(chan *protoCommonV1.TaskRequest), got: map[string][]*protoCommonV1.TaskResponse{},
+		sig: make(chan string, 1024)}
+	done := make(chan struct{})
+	go func() {
+		defer close(done)
+		_ = h.Handle(st)
+	}()
+	return st, cancel, func() {
+		cancel()
+		close(st.reqs)
+		select {
+		case <-done:
+		case <-time.After(2 * time.Second):
+		}
+	}
+}
+
 func (w *lpWorld) close() {
 	if w == nil {
 		return
@@ -540,6 +583,13 @@ type lpScenario struct {
 	badType   bool // a request type the leaf processor does not dispatch (Process's default branch)
 	whereHost bool // data search with the tag filter host = 'h1' (series filtering instead of all series)
 	collect   bool // the group-by tag value collect fails and answers the request itself
+	// the request's deadline (its context is cancelled by the harness):
+	//   'a' after the response has arrived (nothing more may be sent — a responder still waiting would answer now)
+	//   'b' while both shards' pooled scan operators are running (they park in GetSeriesIDsForMetric); every
+	//       later pooled stage is submitted with a done context: Submit's select may take either case
+	//   'c' before the request is handed to the task pool
+	dl    byte
+	ptree string // 'b', 'c': the stage tree with E stages (either case), model op leafdl
 }
 
 // the healthy stage structure of a shard with data: shard scan -> grouping -> data load
@@ -605,6 +655,15 @@ func lpScenarios() []lpScenario {
 		{name: "suggest-namespaces-panic", tree: "Sp", wantErr: true, meta: stmt.Namespace, faults: lpFaults{metaPanic: true}},
 		{name: "suggest-tag-values-where-shard-panic", tree: "So(So,Sl)", wantErr: true, meta: stmt.TagValue, metric: lpMetric, tagKey: lpTagKey, where: true, shards: []models.ShardID{1, 2}, faults: lpFaults{ctorPanic: 2}},
 		{name: "suggest-unreadable-statement", tree: "-", wantErr: true, meta: stmt.Metric, badStmt: true},
+		// the request's deadline passes (controllable context, no timer)
+		{name: "deadline-after-response-group-by", tree: "So(" + lpShardOK + "," + lpShardOK + ")", metric: lpMetric, field: lpField, groupBy: true, shards: []models.ShardID{1, 2}, dl: 'a'},
+		{name: "deadline-after-collect-error-response", tree: "So(" + lpShardOK + "," + lpShardOK + ")", collect: true, wantErr: true, metric: lpMetric, field: lpField, groupBy: true, shards: []models.ShardID{1, 2}, faults: lpFaults{collectErr: true}, dl: 'a'},
+		{name: "deadline-after-error-response", tree: "So(Ae," + lpShardOK + ")", wantErr: true, metric: lpMetric, field: lpField, shards: []models.ShardID{1, 2}, faults: lpFaults{indexErr: 1}, dl: 'a'},
+		{name: "deadline-while-shard-scans-run", tree: "So(" + lpShardOK + "," + lpShardOK + ")", ptree: "So2 Ao1 Eo1 Eo0 Ao1 Eo1 Eo0", metric: lpMetric, field: lpField, shards: []models.ShardID{1, 2},
+			faults: lpFaults{site: "IndexDB.GetSeriesIDsForMetric", siteMode: 'b'}, dl: 'b'},
+		{name: "deadline-while-shard-scans-run-group-by", tree: "So(" + lpShardOK + "," + lpShardOK + ")", ptree: "So2 Ao1 Eo1 Eo0 Ao1 Eo1 Eo0", metric: lpMetric, field: lpField, groupBy: true, shards: []models.ShardID{1, 2},
+			faults: lpFaults{site: "IndexDB.GetSeriesIDsForMetric", siteMode: 'b'}, dl: 'b'},
+		{name: "deadline-before-the-request-is-queued", tree: "So(" + lpShardOK + "," + lpShardOK + ")", ptree: "So2 Eo1 Eo1 Eo0 Eo1 Eo1 Eo0", metric: lpMetric, field: lpField, shards: []models.ShardID{1, 2}, dl: 'c'},
 		// a request type the leaf processor does not know: Process's default branch omits it
 		{name: "unknown-request-type", tree: "o", metric: lpMetric, field: lpField, shards: []models.ShardID{1}, badType: true},
 		// (c) at the request level: TaskHandler.process submits the whole request to a stopped pool
@@ -691,7 +750,14 @@ func (leafArea) Run(c *core.Ctx) error {
 		id   string
 		name string
 		i    int
+		st   *lpStream // the request's own stream (deadline scenarios)
 	}
+	var closers []func()
+	defer func() {
+		for _, f := range closers {
+			f()
+		}
+	}()
 	var all []sent
 	silent := 0
 	for i := 0; i < c.N; i++ {
@@ -734,7 +800,40 @@ func (leafArea) Run(c *core.Ctx) error {
 		if sc.badType {
 			wait = 30 * time.Millisecond
 		}
+		var dcancel context.CancelFunc
+		if sc.dl != 0 {
+			var dclose func()
+			st, dcancel, dclose = w.openDeadlineStream()
+			closers = append(closers, dclose) // kept open to the end of the run: a late duplicate still finds it
+			c.Branch("deadline-scenario-" + string(sc.dl))
+		}
+		if sc.dl == 'b' {
+			w.faults.mu.Lock()
+			w.faults.blocked, w.faults.release = make(chan struct{}, 16), make(chan struct{})
+			w.faults.mu.Unlock()
+		}
+		if sc.dl == 'c' {
+			dcancel()
+		}
 		st.reqs <- req
+		if sc.dl == 'b' {
+			// both shards' scan operators are parked inside their pooled stages: now the deadline passes
+			reached := 0
+			for reached < len(sc.shards) {
+				select {
+				case <-w.faults.blocked:
+					reached++
+					continue
+				case <-time.After(3 * time.Second):
+				}
+				break
+			}
+			if reached < len(sc.shards) {
+				c.Fail("harness-deadline-block-not-reached:"+sc.name, fmt.Sprintf("only %d of %d shard scans reached the parked call", reached, len(sc.shards)))
+			}
+			dcancel()
+			close(w.faults.release)
+		}
 		deadline := time.After(wait)
 		gotOne := false
 		for !gotOne {
@@ -744,6 +843,12 @@ func (leafArea) Run(c *core.Ctx) error {
 			case <-deadline:
 				gotOne = true
 			}
+		}
+		if sc.dl == 'a' {
+			// the response is there; now the deadline passes: whoever still waits on the request's context
+			// (a callback parked in the group-by collect wait) would answer a second time
+			dcancel()
+			time.Sleep(2 * time.Millisecond)
 		}
 		// a second response of a broken pipeline would follow the first at once
 		time.Sleep(300 * time.Microsecond)
@@ -779,8 +884,28 @@ func (leafArea) Run(c *core.Ctx) error {
 		case sc.meta != 0:
 			kind = "meta"
 		}
-		c.Op("leafreq "+kind+" "+lpTokens(sc.tree), out)
 		what := fmt.Sprintf("leaf request scenario %s (stage tree %s)", sc.name, sc.tree)
+		if sc.ptree != "" {
+			// the outcome is a set (Submit's select on a done context): the model is told what was observed and
+			// says whether some resolution produces it; the property is "exactly one response" either way
+			dkind := "data"
+			if sc.groupBy {
+				dkind = "data-group-by"
+			}
+			c.Op("leafdl "+dkind+" "+sc.ptree+" "+resp, out)
+			c.Branch("deadline-response-" + resp)
+			switch {
+			case len(rs) == 0:
+				silent++
+				c.Fail("leaf-no-response:"+sc.name, fmt.Sprintf("%s: the request's context was cancelled, no response within %v", what, wait))
+			case len(rs) > 1:
+				c.Fail("leaf-more-than-one-response:"+sc.name, fmt.Sprintf("%s: %d responses", what, len(rs)))
+			}
+			all = append(all, sent{id: id, name: sc.name, i: i, st: st})
+			c.NonTrivial()
+			continue
+		}
+		c.Op("leafreq "+kind+" "+lpTokens(sc.tree), out)
 		switch {
 		case sc.badType:
 			// Process's default branch answers nothing; reported as an observation only
@@ -809,7 +934,7 @@ func (leafArea) Run(c *core.Ctx) error {
 		if len(rs) > 0 && !rs[0].Completed {
 			c.Fail("leaf-response-not-completed:"+sc.name, what+": response without Completed flag")
 		}
-		all = append(all, sent{id: id, name: sc.name, i: i})
+		all = append(all, sent{id: id, name: sc.name, i: i, st: st})
 		if sc.tree != "-" && sc.tree != "Se" && sc.tree != "So" {
 			c.NonTrivial()
 		}
@@ -817,7 +942,11 @@ func (leafArea) Run(c *core.Ctx) error {
 	// late duplicates: every request id still has exactly the responses counted above
 	time.Sleep(20 * time.Millisecond)
 	for _, s := range all {
-		if n := len(w.stream.responses(s.id)) + len(w.stream2.responses(s.id)); n > 1 {
+		n := len(w.stream.responses(s.id)) + len(w.stream2.responses(s.id))
+		if s.st != nil && s.st != w.stream && s.st != w.stream2 {
+			n += len(s.st.responses(s.id))
+		}
+		if n > 1 {
 			c.Fail("leaf-late-second-response:"+s.name, fmt.Sprintf("request of case %d (%s) received %d responses by the end of the run", s.i, s.name, n))
 		}
 	}
